@@ -147,6 +147,13 @@ def gen(rng, tier):
                 '{"nonce":1,"gasPrice":1,"gas":1,"value":1,"data":"0x","accessList":[]}', '{"nonce":1,"gasPrice":1,"gas":1,"value":1,"data":"0x","chainId":null,"accessList":[]}']:
         cases.append(Case("tx.parse " + hx(doc), tags=("structure",), nontrivial=False))
     cases.append(Case("tx.parse " + hx(b'{"nonce":1,"gasPrice":1,"gas":1,"value":1,"data":"0x","x":"\xff"}'), tags=("structure",), nontrivial=False))
+    # bytes that are not UTF-8 anywhere in the document (a lone high byte is a blank, a digit or a letter in some single-byte
+    # code page: 0x85 NEL, 0xA0 NBSP, 0xB9 superscript one …): between tokens, inside a number, a key, a string value
+    for hb in (0x80, 0x85, 0xa0, 0xad, 0xb1, 0xb9, 0xc0, 0xc2, 0xe2, 0xf0, 0xff):
+        for pat in (b'{"nonce":%s1,"gasPrice":1,"gas":1,"value":1,"data":"0x"}', b'{"nonce":1%s,"gasPrice":1,"gas":1,"value":1,"data":"0x"}', b'{"nonce":"1%s","gasPrice":1,"gas":1,"value":1,"data":"0x"}',
+                    b'{"nonce%s":1,"nonce":1,"gasPrice":1,"gas":1,"value":1,"data":"0x"}', b'{"nonce":1,"gasPrice":1,"gas":1,"value":1,"data":"0x%s"}', b'%s{"nonce":1,"gasPrice":1,"gas":1,"value":1,"data":"0x"}',
+                    b'{"nonce":1,"gasPrice":1,"gas":1,"value":1,"data":"0x"}%s', b'{"nonce":1,"gasPrice":1,"gas":1,"value":1,"data":"0x","to":"0x%s1111111111111111111111111111111111111111"}'):
+            cases.append(Case("tx.parse " + hx(pat % bytes([hb])), tags=("structure", "not-utf8"), nontrivial=False))
     # 6. direct cross-check of the binary64 model
     for tok in [str(t) for t in BAD_NUM if str(t)[0] in "-0123456789"] + ["1e308", "1e309", "1.7976931348623157e308", "1.7976931348623159e308", "4.9e-324", "2.4703282292062327e-324",
                                                                           "2.4703282292062328e-324", "0.1", "123456789012345678901234567890.5e-10", "1e23", "8.5e15"]:
